@@ -181,3 +181,103 @@ func TestRegressRestoredProposer(t *testing.T) {
 		}
 	}
 }
+
+// TestRegressChunkFromNonAdvertiser: two different snapshots share height and format (the spec expects this:
+// "in case peers have generated snapshots in a non-deterministic manner"). Peer "a" advertises only the one the
+// application rejects, peer "b" only the one it accepts. Chunk responses name height/format/index only, so a's late
+// answer fits b's snapshot; chunks are only ever requested from peers that have the snapshot being restored, and a
+// rejected snapshot must not be used again.
+func TestRegressChunkFromNonAdvertiser(t *testing.T) {
+	if lib.IsKnown(findingNonAdv) {
+		lib.ObservedKnown(findingNonAdv)
+		t.Skip("listed as known finding")
+	}
+	c := chain()
+	dir, err := os.MkdirTemp("", "c14r-")
+	if err != nil {
+		t.Fatal(err)
+	}
+	defer os.RemoveAll(dir)
+	r := &rendezvous{evCh: make(chan *event), quit: make(chan struct{})}
+	cli := abcicli.NewLocalClient(nil, &recApp{r: r})
+	s := statesync.VerifC14NewSyncer(config.StateSyncConfig{ChunkFetchers: 0, ChunkRequestTimeout: 10 * time.Second},
+		log.NewNopLogger(), proxy.NewAppConnSnapshot(cli), proxy.NewAppConnQuery(cli), &provDouble{r: r}, dir)
+	d := &driver{t: t, c: c, r: r, s: s, classes: map[string]bool{}}
+	const h = 5
+	owner := map[string]string{"hash-of-a": "a", "hash-of-b": "b"}
+	for hash, p := range owner {
+		sd := snapDesc{Height: h, Format: 1, Chunks: 2, Hash: hash}
+		if _, err := s.AddSnapshot(&peerDouble{id: p2p.ID(p)}, sd.real()); err != nil {
+			t.Fatal(err)
+		}
+	}
+	doneCh := make(chan struct{})
+	go func() {
+		defer close(doneCh)
+		st, cm, err := s.SyncAny(0, func() {})
+		select {
+		case r.evCh <- &event{kind: evDone, state: st, commit: cm, err: err}:
+		case <-r.quit:
+		}
+	}()
+	defer func() {
+		close(r.quit)
+		if q := s.VerifC14Chunks(); q != nil {
+			q.Close() //nolint
+		}
+		<-doneCh
+	}()
+	var rejectedPeer, acceptedPeer string // which of the two is offered first is up to the pool
+	var applied []string
+	for {
+		ev, parked := d.quiesce()
+		if ev == nil {
+			// the late answer of the rejected snapshot's peer arrives first, then the genuine one
+			late, err := s.AddChunk(&statesync.VerifC14Chunk{Height: h, Format: 1, Index: uint32(parked), Chunk: []byte("chunk of the rejected snapshot"), Sender: p2p.ID(rejectedPeer)})
+			if err != nil {
+				t.Fatalf("AddChunk: %v", err)
+			}
+			if late {
+				t.Errorf("chunk %d from %s, who only advertised the rejected snapshot, was accepted into the queue of the other snapshot", parked, rejectedPeer)
+				continue
+			}
+			if ok, err := s.AddChunk(&statesync.VerifC14Chunk{Height: h, Format: 1, Index: uint32(parked), Chunk: []byte("chunk"), Sender: p2p.ID(acceptedPeer)}); err != nil || !ok {
+				t.Fatalf("AddChunk from the advertising peer: %v %v", ok, err)
+			}
+			continue
+		}
+		switch ev.kind {
+		case evAppHash:
+			ev.reply <- provReply{hash: truthAppHash(c, h)}
+		case evState:
+			ev.reply <- provReply{state: c.States[h].Copy()}
+		case evCommit:
+			ev.reply <- provReply{commit: c.Commits[h]}
+		case evOffer:
+			p := owner[string(ev.offer.Snapshot.Hash)]
+			if rejectedPeer == "" {
+				rejectedPeer = p
+				ev.reply <- abci.ResponseOfferSnapshot{Result: abci.ResponseOfferSnapshot_REJECT}
+			} else {
+				acceptedPeer = p
+				ev.reply <- abci.ResponseOfferSnapshot{Result: abci.ResponseOfferSnapshot_ACCEPT}
+			}
+		case evApply:
+			applied = append(applied, ev.apply.Sender)
+			if ev.apply.Sender == rejectedPeer {
+				t.Errorf("chunk %d sent by %s for the rejected snapshot reached the application as part of the other snapshot", ev.apply.Index, rejectedPeer)
+			}
+			ev.reply <- abci.ResponseApplySnapshotChunk{Result: abci.ResponseApplySnapshotChunk_ACCEPT}
+		case evInfo:
+			ev.reply <- abci.ResponseInfo{LastBlockAppHash: truthAppHash(c, h), LastBlockHeight: h, AppVersion: c.States[h].Version.Consensus.App}
+		case evDone:
+			if ev.err != nil {
+				t.Fatalf("SyncAny: %v", ev.err)
+			}
+			if len(applied) != 2 {
+				t.Fatalf("applied %v", applied)
+			}
+			return
+		}
+	}
+}
